@@ -255,6 +255,12 @@ func (s *V2Sessionless) buildAndSendCommand(ctx context.Context, c ipmi.Command)
 			return err
 		}
 
+		// a reply to an earlier command (duplicated, or arriving after we gave
+		// up on it) may still be in the socket; it is not our response
+		if err := responseMatches(&s.messageLayer, c); err != nil {
+			return err
+		}
+
 		code := s.messageLayer.CompletionCode
 		// must increment here, otherwise we'll miss temporary codes at the
 		// higher levels
@@ -265,6 +271,18 @@ func (s *V2Sessionless) buildAndSendCommand(ctx context.Context, c ipmi.Command)
 		}
 		return nil
 	}, backoff.WithContext(s.backoff, ctx))
+}
+
+// responseMatches ensures a decoded message is a response to the command we
+// sent: the response network function is the request's plus one, and the
+// command number is echoed.
+func responseMatches(m *ipmi.Message, c ipmi.Command) error {
+	op := c.Operation()
+	if m.Function != op.Function+1 || m.Command != op.Command {
+		return fmt.Errorf("received response to %v/%v, sent %v/%v",
+			m.Function, m.Command, op.Function, op.Command)
+	}
+	return nil
 }
 
 func (s *V2Sessionless) GetSystemGUID(ctx context.Context) ([16]byte, error) {
